@@ -22,10 +22,12 @@ def malform(s, rng):
         for tag, cls in [('[]','bad-isotope-tag'),('[0]','bad-isotope-tag'),('[05]','bad-isotope-tag'),('[1.5]','bad-isotope-tag'),('[a]','bad-isotope-tag'),
                          ('{}','bad-ion-tag'),('{2}','bad-ion-tag'),('{+2}','bad-ion-tag'),('{0+}','bad-ion-tag'),('{2+-}','bad-ion-tag')]:
             out.append((cls, s[:m.end()] + tag + s[m.end():]))
-        for cnt in ['0','00','03','-2','1.2.3','1e3']:
+        for cnt in ['0','00','03','-2','1e3']:
             # only after element with no count following
             if m.end() == len(s) or not (s[m.end()].isdigit() or s[m.end()]=='.'):
                 out.append(('bad-count', s[:m.end()] + cnt + s[m.end():]))
+        # '1.2.3' is malformed only at the very end of the string ('F1.2.3Ir' = 'F1.2' + '.3Ir')
+        if re.search(r'[A-Za-z\]}]$', s): out.append(('bad-count', s + '1.2.3'))
     br = [i for i,c in enumerate(s) if c in '()[]{}']
     if br:
         i = rng.choice(br); out.append(('unbalanced-del', s[:i]+s[i+1:]))
